@@ -249,6 +249,25 @@ class DynamicConstantProvider(DelegatingConstantProvider):
                 return
             self._pool.add_constant(value)
 
+    def add_concatenated_value(self, first: ConstantTypes, second: ConstantTypes) -> None:
+        """Entry point for the instrumented code. Add the concatenation of two strings.
+
+        The instrumented code must not be influenced by the observation. Thus, the values
+        are only concatenated if both are of the same built-in string type. This way,
+        no user-defined operator is invoked and no exception can be raised, e.g., for
+        `str.startswith` called with a tuple of prefixes or for arbitrary objects that
+        provide a `startswith` method.
+
+        Args:
+            first: The first observed value
+            second: The second observed value
+        """
+        # Might be proxies.
+        first = unwrap(first)
+        second = unwrap(second)
+        if type(first) is type(second) and type(first) in {str, bytes}:
+            self.add_value(first + second)  # type: ignore[operator]
+
     def add_value_for_strings(self, value: str, name: str):
         """Entry point for the instrumented code. Add a value of a string.
 
